@@ -216,3 +216,17 @@ class StarOpaque:
 class SuperRef:
     def __init__(self, owner, self_):
         self.owner, self.self_ = owner, self_
+
+
+class SymMap:
+    """symbolic finite map (Python dict with symbolic keys): `has` : Array(U, Bool), `val` : Array(U, U);
+    `elem` tells how to wrap a stored U term back into a value (e.g. an abstract Trace)"""
+
+    def __init__(self, has, val, elem_cls=None, tag=""):
+        self.has, self.val, self.elem_cls, self.tag = has, val, elem_cls, tag
+
+    def copy(self):
+        return SymMap(self.has, self.val, self.elem_cls, self.tag)
+
+    def __repr__(self):
+        return f"SymMap({self.tag})"
